@@ -57,7 +57,7 @@ inverse_month!(c41_days_to_date_inverse_m10, 10);
 inverse_month!(c41_days_to_date_inverse_m11, 11);
 inverse_month!(c41_days_to_date_inverse_m12, 12);
 
-//@ props=C20 kind=proof
+//@ props=C20 kind=proof solver=kissat timeout=900
 /// day_of_year: 1 on Jan 1, advances by 1 per day inside a year, so it is the 1-based ordinal (<= 366)
 #[kani::proof]
 #[kani::unwind(2)]
@@ -104,12 +104,11 @@ dow_month!(c20_day_of_week_m11, 11);
 dow_month!(c20_day_of_week_m12, 12);
 
 //@ props=C41 kind=mustfail
-/// MUST FAIL (vacuity guard): the successor rule with a 30-day February
+/// MUST FAIL (vacuity guard): "February 28 is always followed by March 1" (false in leap years)
 #[kani::proof]
 #[kani::unwind(2)]
 fn c41_mustfail_wrong_calendar() {
-    let (y, m, d) = o_any_date(1, 9999);
-    kani::assume(m == 2);
-    let (y2, m2, d2) = if d < 30 { (y, m, d + 1) } else { (y, 3, 1) };
-    assert!(date_to_days(y2, m2, d2) == date_to_days(y, m, d) + 1);
+    let y: i64 = kani::any();
+    kani::assume(y >= 1 && y <= 9999);
+    assert!(date_to_days(y, 3, 1) == date_to_days(y, 2, 28) + 1);
 }
